@@ -28,13 +28,14 @@ func maskImpls() []maskImpl {
 }
 
 type c17Case struct {
-	Impl   string `json:"impl"`
-	Len    int    `json:"len"`
-	Align  int    `json:"align"`
-	Key    uint32 `json:"key"`
-	Seed   uint64 `json:"seed"`
-	Splits []int  `json:"splits,omitempty"`
-	Page   string `json:"page,omitempty"` // "", "end" or "start": flush against a PROT_NONE page
+	Impl    string `json:"impl"`
+	Len     int    `json:"len"`
+	Align   int    `json:"align"`
+	Key     uint32 `json:"key"`
+	Seed    uint64 `json:"seed"`
+	Splits  []int  `json:"splits,omitempty"`
+	Page    string `json:"page,omitempty"`     // "", "end" or "start": flush against a PROT_NONE page
+	OpenCap bool   `json:"open_cap,omitempty"` // the slice handed over has spare capacity behind it (two-index slice)
 }
 
 const c17Guard = 64
@@ -91,6 +92,9 @@ func runC17(ar *c17Arena, impl maskImpl, c c17Case) string {
 	fillBytes(all, c.Seed)
 	orig := append([]byte(nil), all...)
 	data := ar.raw[ar.base+start : ar.base+start+c.Len : ar.base+start+c.Len]
+	if c.OpenCap {
+		data = ar.raw[ar.base+start : ar.base+start+c.Len] // cap reaches into the guard and beyond
+	}
 	if uintptr(unsafe.Pointer(&ar.raw[ar.base+start]))%64 != uintptr(c.Align) {
 		return "harness: alignment arithmetic wrong"
 	}
@@ -102,7 +106,11 @@ func runC17(ar *c17Arena, impl maskImpl, c c17Case) string {
 		k := c.Key
 		prev := 0
 		for _, s := range append(append([]int(nil), c.Splits...), c.Len) {
-			k = impl.f(data[prev:s:s], k)
+			if c.OpenCap {
+				k = impl.f(data[prev:s], k)
+			} else {
+				k = impl.f(data[prev:s:s], k)
+			}
 			prev = s
 		}
 		got = k
@@ -209,6 +217,8 @@ func TestC17(t *testing.T) {
 				for _, k := range keys {
 					c := c17Case{Impl: im.name, Len: l, Align: align, Key: k, Seed: evid.Mix(seed, idx)}
 					check(im, c, "whole")
+					c.OpenCap = true
+					check(im, c, "whole-opencap")
 				}
 			}
 		}
@@ -231,6 +241,7 @@ func TestC17(t *testing.T) {
 				for s := 0; s <= l; s++ {
 					idx++
 					check(im, c17Case{Impl: im.name, Len: l, Align: align, Key: key, Seed: evid.Mix(seed, idx), Splits: []int{s}}, "split2")
+					check(im, c17Case{Impl: im.name, Len: l, Align: align, Key: key, Seed: evid.Mix(seed, idx), Splits: []int{s}, OpenCap: true}, "split2-opencap")
 				}
 			}
 			for l := 1; l <= max3; l++ {
